@@ -85,6 +85,11 @@ fn check<C: Pv>(c: &Case) -> Report {
     if !e1::horner_shape_ok(&circuit) {
         return Report::pass().class("excluded_by_known_finding:horner-positional-contract");
     }
+    // listed root cause coeff-slot-second-creator (C09/C10): a recompose/coeff coefficient slot
+    // with a second creator is mis-counted by the preprocessing; excluded by construction, counted
+    if e1::exclude_known() && !e1::coeff_slots_ok(&circuit) {
+        return Report::pass().class("excluded_by_known_finding:coeff-slot-second-creator");
+    }
     let mut runner = circuit.runner();
     if runner
         .set_public_inputs(&publics)
@@ -299,6 +304,26 @@ fn check<C: Pv>(c: &Case) -> Report {
         }
         (true, false) => {
             // every invalidity class was accepted; one unknown class is enough for a violation
+            if std::env::var("VERIF_DUMP_C04").is_ok() {
+                for (i, op) in circuit.ops.iter().enumerate() {
+                    eprintln!("op{i}: {}", crate::e1::fmt_op::<C>(op));
+                }
+                for cf in [false, true] {
+                    for (side, tr) in [("forged", &t), ("honest", &honest_again)] {
+                        if let Some(rt) = forge::recompose_rows::<C>(tr, cf) {
+                            for (i, r) in rt.operations.iter().enumerate() {
+                                eprintln!(
+                                    "recompose coeff={cf} {side} row{i}: in={:?} out={} values={:?}",
+                                    r.input_wids.iter().map(|w| w.0).collect::<Vec<_>>(),
+                                    r.output_wid.0,
+                                    r.values
+                                );
+                            }
+                        }
+                    }
+                }
+                eprintln!("const forged {:?}\nconst honest {:?}", t.const_trace, honest_again.const_trace);
+            }
             let sigs: Vec<String> = classes.iter().map(|c| format!("C04/accepted-invalid:{c}")).collect();
             let sig = sigs
                 .iter()
